@@ -152,6 +152,8 @@ class Ctx:
             'wall_s': round(wall, 3),
             'violations': len(new),
         }
+        from . import sym as _sym
+        ev['coverage']['path_enumeration'] = dict(_sym.STATS)
         ev['coverage'].update(self.extra)
         if self_test is not None:
             ev['coverage']['selftest'] = self_test
